@@ -124,6 +124,7 @@ type Interp struct {
 	frozen     map[*Value]bool
 	frozenMaps map[*MapV]bool
 	frozenHits []string
+	frozenLax  bool // value-level monitor (vfFreeze): storing the identical value back is not a change
 }
 
 type Stats struct {
@@ -279,7 +280,7 @@ func (in *Interp) store(T types.Type, addr *Value, v Value) {
 	if in.globalSlot != nil && in.globalSlot[addr] {
 		in.globalsDirty = true
 	}
-	if in.frozen != nil && in.frozen[addr] {
+	if in.frozen != nil && in.frozen[addr] && !(in.frozenLax && identical(*addr, v)) {
 		in.frozenHits = append(in.frozenHits, "store to frozen object")
 	}
 	*addr = v
@@ -967,4 +968,25 @@ func (in *Interp) mergeShortCircuit(fr *frame, b0 *ssa.BasicBlock, c1 *Term) (*s
 		return nb, pv, true
 	}
 	return nil, nil, false
+}
+
+// identical: the same scalar term or the same reference (no structural comparison).
+func identical(a, b Value) bool {
+	switch x := a.(type) {
+	case *Term:
+		y, ok := b.(*Term)
+		return ok && x == y
+	case *Value:
+		y, ok := b.(*Value)
+		return ok && x == y
+	case *MapV:
+		y, ok := b.(*MapV)
+		return ok && x == y
+	case Str:
+		y, ok := b.(Str)
+		return ok && x.B == nil && y.B == nil && !x.Opq && !y.Opq && x.S == y.S
+	case nil:
+		return b == nil
+	}
+	return false
 }
